@@ -153,6 +153,47 @@ impl Case17 {
                 }
             }
         }
+        // the same instance again: pass with s1, clear the gradients of graph-less arrays only (what an optimizer
+        // does), pass with s2 - those arrays must now hold exactly g(s2) of a fresh instance
+        {
+            let res = (|| -> Result<Grads, String> {
+                let mut ex = Exec::new();
+                for s in &self.hist.steps {
+                    ex.step(s)?;
+                }
+                ex.step(&Step::Backward { h: self.root, seed: Some(self.s1.clone()) })?;
+                for h in 0..m.handles.len() {
+                    if let (Some(hd), Some(a)) = (&m.handles[h], ex.slots.get(h).and_then(|x| x.as_ref())) {
+                        if !m.nodes[hd.node].has_graph() {
+                            a.replace_gradient();
+                        }
+                    }
+                }
+                ex.step(&Step::Backward { h: self.root, seed: Some(self.s2.clone()) })?;
+                Ok(ex.slots.iter().map(|s| s.as_ref().and_then(|a| a.gradient().as_ref().map(|g| (g.dimensions().to_vec(), f64s(g.values()))))).collect())
+            })();
+            match res {
+                Err(p) if is_discard(&p) => {}
+                Err(p) => return e("panic-second-pass", format!("a second pass on the same instance panicked: {}", p)),
+                Ok(gg) => {
+                    for h in 0..gg.len() {
+                        let is_leaf = m.handles[h].as_ref().map_or(false, |hd| !m.nodes[hd.node].has_graph());
+                        let is_root = m.handles[h].as_ref().map_or(false, |hd| hd.node == m.handle(self.root).node);
+                        if !is_leaf || is_root {
+                            continue;
+                        }
+                        let same = match (&gg[h], &g2[h]) {
+                            (None, None) => true,
+                            (Some((d1, v1)), Some((d2, v2))) => d1 == d2 && v1.len() == v2.len() && (0..v1.len()).all(|i| if exact { v1[i] == v2[i] } else { m2[h].as_ref().map_or(true, |mm| close(v1[i], v2[i], 2.0 * mm[i], false)) }),
+                            _ => false,
+                        };
+                        if !same {
+                            return e("second-pass-differs", format!("handle {}: after a pass with s1 and clearing the leaf gradients, the pass with s2 leaves {:?}; on a fresh instance it leaves {:?} (s1 {:?}, s2 {:?})", h, gg[h], g2[h], self.s1, self.s2));
+                        }
+                    }
+                }
+            }
+        }
         // omitted seed == explicit ones, bitwise
         let ones = vec![1.0; self.s1.len()];
         let go = match run(Some(&ones), None) {
